@@ -65,6 +65,7 @@ from typing import IO, TYPE_CHECKING
 from .errors import ChecksumMismatch
 from .file import GitFile
 from .objects import (
+    S_ISGITLINK,
     Blob,
     Commit,
     ObjectID,
@@ -940,7 +941,7 @@ def build_reachability_bitmap(
     commit_sha: ObjectID,
     sha_to_pos: dict[RawObjectID, int],
     object_store: "BaseObjectStore",
-) -> EWAHBitmap:
+) -> EWAHBitmap | None:
     """Build a reachability bitmap for a commit.
 
     The bitmap has a bit set for each object that is reachable from the commit.
@@ -952,7 +953,8 @@ def build_reachability_bitmap(
         object_store: Object store to traverse objects
 
     Returns:
-        EWAH bitmap with bits set for reachable objects
+        EWAH bitmap with bits set for reachable objects, or None if the commit
+        reaches an object that is not in the pack
     """
     bitmap = EWAHBitmap()
 
@@ -966,11 +968,13 @@ def build_reachability_bitmap(
             continue
         seen.add(sha)
 
-        # Add this object to the bitmap if it's in the pack
-        # Convert hex SHA to binary for pack index lookup
+        # A bitmap can only name objects of its own pack, so it can describe
+        # a commit only if everything the commit reaches is in that pack (git
+        # refuses to write bitmaps for a pack that is not closed).
         raw_sha = hex_to_sha(sha)
-        if raw_sha in sha_to_pos:
-            bitmap.add(sha_to_pos[raw_sha])
+        if raw_sha not in sha_to_pos:
+            return None
+        bitmap.add(sha_to_pos[raw_sha])
 
         # Get the object and traverse its references
         try:
@@ -981,9 +985,11 @@ def build_reachability_bitmap(
                 queue.append(obj.tree)
                 queue.extend(obj.parents)
             elif isinstance(obj, Tree):
-                # Tree object - add all entries
+                # Tree object - add all entries (a gitlink names a commit of
+                # another repository)
                 for item in obj.items():
-                    queue.append(item.sha)
+                    if not S_ISGITLINK(item.mode):
+                        queue.append(item.sha)
         except KeyError:
             # Object not in store, skip it
             continue
@@ -1174,7 +1180,8 @@ def generate_bitmap(
             progress(f"Building bitmap {i + 1}/{len(selected_commits)}")
 
         bitmap = build_reachability_bitmap(commit_sha, sha_to_pos, object_store)
-        commit_bitmaps.append((commit_sha, bitmap))
+        if bitmap is not None:
+            commit_bitmaps.append((commit_sha, bitmap))
 
     if progress:
         progress("Applying XOR compression")
